@@ -710,3 +710,23 @@ fn c10_x_rw_parked_reader_after_cancelled_writer() {
   std::mem::forget(r);
   std::mem::forget(wf);
 }
+
+/// C10: a pending lock future re-polled with a different waker: the release must wake the latest one,
+/// and the woken future acquires.
+#[kani::proof]
+#[kani::unwind(5)]
+fn c10_q_mutex_repoll_other_waker() {
+  let m = HybridMutex::new(0u8);
+  let held = m.try_lock();
+  let mut f = Some(mk_lock(&m));
+  assert!(poll_slot(&mut f, 0).is_pending(), "C10: lock_async acquired a held mutex");
+  assert!(poll_slot(&mut f, 1).is_pending(), "C10: lock_async acquired a held mutex");
+  drop(held);
+  assert!(wakes(1) >= 1, "C10: pending lock future not woken through its latest waker on release (lost wakeup)");
+  match poll_slot(&mut f, 1) {
+    Poll::Ready(g) => std::mem::forget(g),
+    Poll::Pending => assert!(false, "C10: woken lock future could not acquire a free mutex"),
+  }
+  f = None;
+  assert!(m.try_lock().is_none(), "C10: two mutex guards coexist");
+}
